@@ -34,7 +34,7 @@ ID = "C14"
 LEVEL = "exploration"
 RULE = (
     "Hypothesis-built file-tree layouts (1-3 search paths + optional .pth-added directory, depth <=3; per module name a set of forms: "
-    ".py, .pyi, directory with init kind none/py/pyi/py+pyi, native and foreign extension file names, .pyc/.pyo, non-module files, "
+    ".py, .pyi, directory with init kind none/py/pyi/py+pyi, names from {a,b,c} plus names that are not identifiers but importable (0a, a-b, class, non-ASCII), native and foreign extension file names, .pyc/.pyo, non-module files, "
     "dotted file names, __pycache__ with bytecode and decoy sources; top-level modes regular/native namespace/pkgutil-style/"
     "pkg_resources-style/mixed), each loaded under 3 listing orders and 3 request forms and judged against CPython's finders. "
     "non-trivial = the requested top-level name exists in >=2 search paths, or some name exists both as file and as directory; "
@@ -59,7 +59,9 @@ ASSUMPTIONS = [
     "a .pyi-only module is 'stub-only' (accepted) unless CPython imports a source module at that very dotted name",
     "member order inside a module is not part of 'the resulting tree' (dictionary order follows load order); the order of the "
     "directory list of a namespace package is",
-    "no symlinks, no non-identifier directory names, module bodies are `x = 1`",
+    "no symlinks, module bodies are `x = 1`; non-identifier / keyword / non-ASCII file and directory names are generated below the top level "
+    "and judged exactly like any other name (CPython's finders and pkgutil's walker accept every name without a dot); the requested "
+    "top-level name itself is always `p`",
 ]
 BUDGET_S = {"quick": 70.0, "thorough": 1100.0}
 SHRINK_MAX_EXAMPLES = 4000
